@@ -59,10 +59,23 @@ func running(c *chk.Ctx, st facts.State, owner string) (bool, string) {
 // nilCheckedDownstream: value v (a possibly-nil channel) flows into calls; is
 // every eventual method call on it dominated by a nil check in the function
 // that makes it?
-func nilCheckedDownstream(c *chk.Ctx, v ssa.Value, depth int, trail string) (bool, string) {
+func nilCheckedDownstream(c *chk.Ctx, v ssa.Value, depth int, trail string, aliases ...ssa.Value) (bool, string) {
 	if depth > 6 {
 		return false, "flow too deep to follow: " + trail
 	}
+	// v and the values it was converted from denote the same channel: a nil check on any of them counts
+	isV := func(y ssa.Value) bool {
+		if y == v {
+			return true
+		}
+		for _, a := range aliases {
+			if y == a {
+				return true
+			}
+		}
+		return false
+	}
+	chain := append(append([]ssa.Value{}, aliases...), v)
 	refs := v.Referrers()
 	if refs == nil {
 		return true, ""
@@ -71,11 +84,11 @@ func nilCheckedDownstream(c *chk.Ctx, v ssa.Value, depth int, trail string) (boo
 		switch x := r.(type) {
 		case *ssa.DebugRef:
 		case *ssa.ChangeInterface:
-			if ok, why := nilCheckedDownstream(c, x, depth, trail); !ok {
+			if ok, why := nilCheckedDownstream(c, x, depth, trail, chain...); !ok {
 				return false, why
 			}
 		case *ssa.MakeInterface:
-			if ok, why := nilCheckedDownstream(c, x, depth, trail); !ok {
+			if ok, why := nilCheckedDownstream(c, x, depth, trail, chain...); !ok {
 				return false, why
 			}
 		case *ssa.Phi:
@@ -117,13 +130,13 @@ func nilCheckedDownstream(c *chk.Ctx, v ssa.Value, depth int, trail string) (boo
 		case ssa.CallInstruction:
 			cc := x.Common()
 			if cc.IsInvoke() && cc.Value == v {
-				same := func(y ssa.Value) bool { return y == v }
+				same := isV
 				if !ir.ProvesNonNil(ir.CondsAt(x.Block()), same) {
 					return false, fmt.Sprintf("%s.%s at %s is not dominated by a nil check (%s)", "value", cc.Method.Name(), c.P.Pos(x.Pos()), trail)
 				}
 				continue
 			}
-			if ir.ProvesNonNil(ir.CondsAt(x.Block()), func(y ssa.Value) bool { return y == v }) {
+			if ir.ProvesNonNil(ir.CondsAt(x.Block()), isV) {
 				continue // known non-nil where it is passed on
 			}
 			gs, _ := c.P.Callees(x)
